@@ -4,6 +4,8 @@ C16 - ulist, dictattr and Dict implement ordered set / key algebra without side 
 
 sub-checks
     ulist_ops     ulist construction and chains of + | - & against an ordered-set model
+    ulist_long    the same oracle on raw lists / operands of 30-200 entries over 5-40 distinct elements (size thresholds)
+    mapping_long  the mapping oracle on mappings with 20-80 keys and selections of up to 120 keys
     mapping_ops   dictattr / Dict / local subclasses / dictable:  - & [list] [k1,k2] + relabel attribute access
     call_graph    Dict.__call__ on generated dependency graphs (<= 6 derived keys), sampled keyword orders
                   (thorough: part of the cases loop over ALL keyword orders inside run)
@@ -105,6 +107,52 @@ def _ulist_case(draw):
     return dict(pool=pool, init=init, ctor=ctor, ops=ops)
 
 
+# long inputs: size thresholds inside the implementation (fast paths for "big" lists) are crossed only by raw lists of tens to hundreds of entries
+_UL_UNIVERSE = (list(range(-5, 31)) + ['s%i' % i for i in range(12)] + [['tuple', [i, i + 1]] for i in range(6)]
+                + [None, '', 2.5, -0.5, 1.0, True, ['tuple', []], ['nan', 0]])
+
+
+@st.composite
+def _ulist_long_case(draw):
+    pool = draw(st.lists(st.sampled_from(_UL_UNIVERSE), min_size=5, max_size=40, unique_by=repr))
+    idx = st.integers(0, len(pool) - 1)
+
+    def long_list():
+        lo, hi = draw(st.sampled_from([(30, 63), (64, 127), (64, 127), (128, 200), (128, 200)]))
+        n = draw(st.sampled_from([lo, hi]) if draw(st.integers(0, 3)) == 0 else st.integers(lo, hi))
+        return draw(st.lists(idx, min_size=n, max_size=n))
+
+    def short_list():
+        return draw(st.lists(idx, max_size=8))
+    shape = draw(st.sampled_from(['long_left', 'long_left', 'long_right', 'both', 'both']))
+    init = short_list() if shape == 'long_right' else long_list()
+    ctor = draw(st.sampled_from(['list', 'list', 'tuple', 'ulist']))
+    ops = []
+    for k in range(draw(st.sampled_from([1, 1, 2]))):
+        op = draw(st.sampled_from(_U_OPS))
+        if shape == 'long_left' or k > 0:
+            kind = draw(st.sampled_from(['elem', 'list', 'list', 'ulist']))
+            operand = draw(idx) if kind == 'elem' else (long_list() if draw(st.integers(0, 3)) == 0 else short_list())
+        else:
+            kind = draw(st.sampled_from(['list', 'list', 'ulist']))
+            operand = long_list()
+        ops.append([op, kind, operand])
+    return dict(pool=pool, init=init, ctor=ctor, ops=ops)
+
+
+def _first_diff(got, exp):
+    for i in range(min(len(got), len(exp))):
+        if not _same(got[i], exp[i]):
+            return 'first difference at position %i: %r instead of %r' % (i, got[i], exp[i])
+    return 'lengths %i and %i' % (len(got), len(exp))
+
+
+def _len_classes(prefix, n, cls):
+    for t in (30, 64, 128):
+        if n >= t:
+            cls.append('%s>=%i' % (prefix, t))
+
+
 def run_ulist_ops(spec):
     from pyg_base import ulist
     env = Env()
@@ -125,9 +173,14 @@ def run_ulist_ops(spec):
         check(_ident(src, init), 'ulist(x) modified the list x it was built from: %s', src)
     model = _dedup(init)
     check(type(u) is ulist, 'ulist(...) is a %s', type(u).__name__)
-    check(_seq_same(list(u), model), 'ulist(%s) = %s, first-occurrence order without duplicates is %s', init, list(u), model)
+    check(_seq_same(list(u), model), 'ulist(%s) = %s, first-occurrence order without duplicates is %s (%s)', init, list(u), model, _first_diff(list(u), model))
 
     cls = ['ctor=' + ctor]
+    _len_classes('raw_len', len(init), cls)
+    _len_classes('ctor_raw_len', len(init), cls)
+    last_first = _dedup(init[::-1])[::-1]
+    if not _seq_same(last_first, model):
+        cls.append('first_and_last_occurrence_order_differ')
     nt = False
     dup_init = len(model) < len(init)
     if dup_init:
@@ -148,6 +201,9 @@ def run_ulist_ops(spec):
             if kind == 'ulist':
                 arg = call('ulist(%s)' % short(xs, 120), ulist, list(xs))
                 arg_before = list(arg)
+                check(_seq_same(arg_before, _dedup(xs)), 'ulist(%s) = %s, first-occurrence order without duplicates is %s (%s)', xs, arg_before, _dedup(xs),
+                      _first_diff(arg_before, _dedup(xs)))
+                _len_classes('raw_len', len(xs), cls)
         what = 'ulist(%s) %s %s%s' % (short(before, 100), op, 'ulist' if kind == 'ulist' else '', short(arg_before if arg_before is not None else arg, 100))
         if op == '+':
             res = call(what, lambda: u + arg)
@@ -166,7 +222,7 @@ def run_ulist_ops(spec):
         check(isinstance(res, ulist), '%s returned a %s, not a ulist', what, type(res).__name__)
         got = list(res)
         check(all(not _same(got[i], got[j]) for i in range(len(got)) for j in range(i)), '%s = %s contains a duplicate', what, got)
-        check(_seq_same(got, exp), '%s = %s, the ordered-set model says %s', what, got, exp)
+        check(_seq_same(got, exp), '%s = %s, the ordered-set model says %s (%s)', what, got, exp, _first_diff(got, exp))
         check(_ident(list(u), before), '%s changed its left operand to %s', what, list(u))
         if arg_before is not None:
             check(_ident(list(arg), arg_before), '%s changed its right operand to %s', what, list(arg))
@@ -175,6 +231,11 @@ def run_ulist_ops(spec):
         overlap = 'disjoint' if n_in == 0 else 'total' if n_in == len(before) else 'partial'
         cls.append('op' + op)
         cls.append('kind=' + kind)
+        if kind != 'elem':
+            _len_classes('operand_len', len(xs), cls)
+            if op in '+|':
+                _len_classes('raw_len', len(before) + len(xs), cls)
+                _len_classes('union_raw_len', len(before) + len(xs), cls)
         cls.append('overlap=' + overlap)
         if kind == 'elem':
             cls.append('elem_present' if n_in else 'elem_absent')
@@ -222,7 +283,7 @@ def _classes():
             pass
         _CLS.update(dict=dict, dictattr=dictattr, Dict=Dict, AttrSub=AttrSub, DictSub=DictSub, dictable=dictable)
         for name in _MAP_CLASSES:
-            for k in _KEYS + _ABSENT_EXTRA + _NEW + _B_NAMES + _D_NAMES:
+            for k in _KEYS + _ABSENT_EXTRA + _NEW + _B_NAMES + _D_NAMES + _LONG_KEYS:
                 if k in dir(_CLS[name]):
                     raise HarnessError('key %r is an attribute of %s' % (k, name))
     return _CLS
@@ -306,6 +367,40 @@ def _mapping_case(draw):
     return dict(cls=cls, items=items, nrows=nrows, op=op)
 
 
+_LONG_KEYS = ['k%02i' % i for i in range(100)]
+
+
+@st.composite
+def _mapping_long_case(draw):
+    """20-80 keys (dictattr.keys() is a ulist) and long selections for -, & and [list]"""
+    cls = draw(st.sampled_from(_MAP_CLASSES))
+    nk = draw(st.one_of(st.integers(20, 80), st.sampled_from([31, 32, 33, 63, 64, 65, 80])))
+    keys = list(draw(st.permutations(_LONG_KEYS))[:nk])
+    absent = [k for k in _LONG_KEYS if k not in keys]
+    if cls == 'dictable':
+        nrows = draw(st.integers(0, 2))
+        items = [[k, [i * 10 + r for r in range(nrows)]] for i, k in enumerate(keys)]
+    else:
+        nrows = None
+        items = [[k, i] for i, k in enumerate(keys)]
+    opname = draw(st.sampled_from(['subl', 'andl', 'getl', 'subl', 'andl', 'getl', 'sub1', 'and1', 'gett']))
+    op = dict(name=opname)
+    if cls == 'dictable' and opname == 'gett':
+        opname = op['name'] = 'getl'
+    if opname in ('sub1', 'and1'):
+        op['key'] = draw(st.sampled_from(keys)) if draw(st.integers(0, 3)) else draw(st.sampled_from(absent))
+    else:
+        mode = draw(st.sampled_from(['present', 'present', 'mixed'] if opname in ('getl', 'gett') else ['present', 'mixed', 'mixed']))
+        n_in = draw(st.integers(1, min(100, 2 * nk)))
+        src = st.sampled_from(keys)
+        sel = draw(st.lists(src, min_size=n_in, max_size=n_in))                 # repeats, any order
+        if mode == 'mixed':
+            sel = sel + draw(st.lists(st.sampled_from(absent), min_size=1, max_size=20))
+            sel = list(draw(st.permutations(sel)))
+        op['keys'] = sel
+    return dict(cls=cls, items=items, nrows=nrows, op=op)
+
+
 def _build_mapping(cname, items, env):
     C = _classes()
     data = {}
@@ -351,8 +446,8 @@ KNOWN = {'c16.dictable_and_no_overlap': _is_known_and}
 EXCLUDE_F13_BY_CONSTRUCTION = os.environ.get('PV_C16_EXCLUDE_F13', '') == '1'
 
 
-def _mapping_strategy(tier):
-    s = _mapping_case()
+def _mapping_strategy(tier, long=False):
+    s = _mapping_long_case() if long else _mapping_case()
     if EXCLUDE_F13_BY_CONSTRUCTION:
         def repair(spec):
             if _is_known_and(spec):
@@ -378,6 +473,9 @@ def run_mapping_ops(spec):
     name = op['name']
     snap = _snapshot(d)
     cls = ['cls=' + cname, 'op=' + name, 'nkeys=%i' % min(len(keys), 3)]
+    _len_classes('nkeys', len(keys), cls)
+    if 'keys' in op:
+        _len_classes('sel_len', len(op['keys']), cls)
     nt = False
     rep = '%s(%s)' % (cname, short(data, 150))
 
@@ -838,6 +936,13 @@ SUBS = [
              'non-trivial = some list/ulist operand overlaps the current ulist partially and (operand or initial list) has repeated elements',
         floor=0.12, class_floors={'dup_in_operand': 0.2, 'overlap=partial': 0.2, 'elem_present': 0.1, 'elem_absent': 0.05,
                                   'op&': 0.2, 'op-': 0.2, 'op+': 0.2, 'op|': 0.2, 'kind=ulist': 0.1, 'equal_across_types': 0.005}),
+    Sub('ulist_long', lambda tier: _ulist_long_case(), run_ulist_ops, quick=1500, thorough=6000,
+        rule='long inputs (size thresholds / fast paths): a pool of 5-40 distinct hashables; raw lists of 30-200 pool entries with many repeats in drawn order '
+             '(so first- and last-occurrence order differ) as constructor argument (list / tuple / ulist) and / or as right operand (list or ulist) of + | - &, '
+             'the other side short or long, 1-2 operations; same ordered-set oracle as ulist_ops. non-trivial as in ulist_ops',
+        floor=0.1, class_floors={'raw_len>=64': 0.5, 'raw_len>=128': 0.25, 'ctor_raw_len>=64': 0.3, 'ctor_raw_len>=128': 0.12, 'union_raw_len>=64': 0.08,
+                                 'union_raw_len>=128': 0.04, 'operand_len>=64': 0.2, 'operand_len>=128': 0.08, 'first_and_last_occurrence_order_differ': 0.5,
+                                 'op&': 0.15, 'op-': 0.15, 'op+': 0.15, 'op|': 0.15}),
     Sub('mapping_ops', _mapping_strategy, run_mapping_ops, quick=10000, thorough=30000,
         rule='mapping of class dictattr / Dict / local subclass of each / dictable with 0-5 string keys and flat values; one operation: d - key, d - [keys], '
              'd & key, d & [keys], d[[keys]], d[k1, k2], d + other, relabel (keyword, dict, prefix, suffix, callable, full list, *names), attribute get/set/del; '
@@ -846,6 +951,12 @@ SUBS = [
         floor=0.25, class_floors={'cls=dictable': 0.1, 'cls=AttrSub': 0.1, 'cls=DictSub': 0.1, 'sel=mixed': 0.08, 'sel=absent': 0.05, 'op=add': 0.08,
                                   'add_overlap=some': 0.03, 'op=relabel': 0.08, 'relabel=list': 0.004, 'relabel=callable': 0.008, 'op=gett': 0.04,
                                   'op=attr': 0.02}),
+    Sub('mapping_long', lambda tier: _mapping_strategy(tier, long=True), run_mapping_ops, quick=1200, thorough=5000,
+        rule='same classes and oracle as mapping_ops on mappings with 20-80 keys (dictattr.keys() is a ulist; sizes around 32 and 64 over-sampled): d - [keys], d & [keys], '
+             'd[[keys]], d[k1, .., kn] with selections of up to 120 keys (repeats, any order, present or mixed with absent keys), and d - key, d & key. '
+             'non-trivial as in mapping_ops',
+        floor=0.3, class_floors={'nkeys>=30': 0.6, 'nkeys>=64': 0.15, 'sel_len>=30': 0.3, 'sel_len>=64': 0.1, 'sel=mixed': 0.15, 'cls=dictable': 0.1,
+                                 'op=subl': 0.1, 'op=andl': 0.1, 'op=getl': 0.1}),
     Sub('call_graph', lambda tier: _call_case(tier), run_call, quick=4000, thorough=3000,
         rule='Dict / subclass with 0-4 base keys; keywords = 1-6 callable (derived) keys whose parameters name base keys, plain keywords or other derived keys '
              '(random dag over a hidden rank order; 1 in 4 gets 1-2 back edges, no self-loops; 1 in 4 derived names also has an old value in d) plus 0-2 plain keywords; '
